@@ -162,7 +162,8 @@ pub struct Oracle {
     pub leaders: BTreeMap<u64, BTreeSet<u64>>,              // term -> nodes that were Leader with it
     pub supports: BTreeMap<(u64, u64), BTreeSet<u64>>,       // (voter, term) -> candidates supported
     pub lcommits: Vec<(u64, Option<Ent>)>,                   // entries committed by a leader
-    pub m_dv: Option<usize>, pub m_sv: Option<usize>, pub m_ad: Option<usize>, pub m_ot: Option<usize>,
+    pub m_dv: Option<usize>, pub m_sv: Option<usize>, pub m_ad: Option<usize>, pub m_ot: Option<usize>, pub m_av: Option<usize>,
+    pub voted_term: BTreeMap<u64, u64>,                     // voter -> highest term it answered Ok to a Vote request for
     pub failures: Vec<Failure>,
     pub seen: BTreeSet<&'static str>,
     pub elections: u64, pub commits: u64, pub leader_changes: u64,
@@ -180,7 +181,8 @@ impl Oracle {
         if !self.seen.insert(kind) { return; }
         let election = [("double-vote", self.m_dv), ("stale-vote-counted", self.m_sv)];
         let all = [("double-vote", self.m_dv), ("stale-vote-counted", self.m_sv),
-                   ("ack-from-diverged-log", self.m_ad), ("old-term-commit", self.m_ot)];
+                   ("ack-from-diverged-log", self.m_ad), ("old-term-commit", self.m_ot),
+                   ("ack-below-voted-term", self.m_av)];
         let cls = match kind {
             "two-leaders-in-term" => self.classify(&election),
             "committed-entries-differ" | "new-leader-misses-committed-entry" => self.classify(&all),
@@ -192,8 +194,8 @@ impl Oracle {
     pub fn flags(&self) -> String {
         let f = |k: &str| if self.seen.contains(k) { 0 } else { 1 };
         let m = |x: &Option<usize>| if x.is_some() { 1 } else { 0 };
-        format!("es={} agree={} lc={} dv={} sv={} ad={} ot={}", f("two-leaders-in-term"), f("committed-entries-differ"),
-                f("new-leader-misses-committed-entry"), m(&self.m_dv), m(&self.m_sv), m(&self.m_ad), m(&self.m_ot))
+        format!("es={} agree={} lc={} dv={} sv={} ad={} ot={} av={}", f("two-leaders-in-term"), f("committed-entries-differ"),
+                f("new-leader-misses-committed-entry"), m(&self.m_dv), m(&self.m_sv), m(&self.m_ad), m(&self.m_ot), m(&self.m_av))
     }
 }
 
@@ -299,8 +301,12 @@ impl World {
                                 let set = self.orc.supports.entry((t as u64, raft::vx_req_term(&r))).or_default();
                                 set.insert(r.index);
                                 if set.len() > 1 && self.orc.m_dv.is_none() { self.orc.m_dv = Some(step); }
+                                let e = self.orc.voted_term.entry(t as u64).or_insert(0);
+                                *e = (*e).max(raft::vx_req_term(&r));
                             }
                             if kind == 'A' || kind == 'H' {
+                                let vt = self.orc.voted_term.get(&(t as u64)).copied().unwrap_or(0);
+                                if raft::vx_req_term(&r) < vt && self.orc.m_av.is_none() { self.orc.m_av = Some(step); }
                                 let s = r.index as usize;
                                 if s < self.nodes.len() {
                                     let li = self.nodes[t].vx_local_log_index() as usize;
